@@ -1104,6 +1104,7 @@ func jidCore(c *cx, id string) {
 	jidEqualRule(c, id)
 	jidAppendsFresh(c, id)
 	c11CodecsVerbatim(c, id)
+	c11LocalLenIsEnforcedLen(c, id)
 }
 
 // c11CodecsVerbatim (C11.16): the XML codecs of JID hand the text they were
